@@ -244,6 +244,8 @@ def build(pid, P, R, tier, log_dir):
         obs.append(mod_decls_ob(P, R, mp, log_dir, 2 if tier == "quick" else 3))
     if pid == "C15":
         obs.append(add_rust_crate_ob(P, R, mp, log_dir))
+    if pid == "C17":
+        obs.append(hook_select_ob(P, R, mp, log_dir, 2 if tier == "quick" else 3))
     if pid == "C16":
         obs.append(test_harness_ob(P, R, mp, log_dir))
         obs.append(run_tests_ob(P, R, mp, log_dir, 2 if tier == "quick" else 3))
@@ -971,3 +973,148 @@ def mods_native(log_dir):
         if sorted(names) != want:
             problems.append(f"[{prof}] main.rs declares {names}, the project has {want}")
     return bool(problems), "; ".join(problems[:3]) or "generate_multi: the same eight `mod` lines in every process"
+
+
+# ---- C17: which hook is recorded for a newtype ---------------------------------------------------------------------------------------------------
+def hook_select_ob(P, R, mp, log_dir, bound):
+    statement = ("AstLowering::select_newtype_checked_ctor: the validation hook recorded for a newtype is, among its STATIC methods named from_* that take exactly the "
+                 "underlying type and return Result[<the newtype>, _] (the candidates): `from_underlying` if it is one of them, else the only candidate if there is exactly "
+                 "one, else none - whatever other methods (other shapes, other names, with a receiver) the newtype has")
+
+    def run():
+        import itertools
+        t0 = time.time()
+        f = only_fn(P, "::select_newtype_checked_ctor")
+        ex = slice_executor(P, R, bound, (r"PartialEq>::eq$", r"PartialEq<.*>>::eq$", r"collections::from_str$", r"str>::starts_with", r"tracing", r"Level", r"Callsite", r"Interest",
+                                            r"FieldSet", r"Arguments", r"^display", r"^debug", r"ValueSet", r"Metadata"))
+        ex.model_vecs = True
+        ex.recursion_bound = 0
+        n_ = ex.sym_value("incan_syntax::ast::NewtypeDecl", "n")
+        outs = ex.run(f, [n_])
+        nt = [x[0] for x in R.resolve("incan_syntax::ast::NewtypeDecl").variants[0][1]]
+        md = [x[0] for x in R.resolve("incan_syntax::ast::MethodDecl").variants[0][1]]
+        iM, iU, iN = nt.index("methods"), nt.index("underlying"), nt.index("name")
+        jN, jR, jP, jT = md.index("name"), md.index("receiver"), md.index("params"), md.index("return_type")
+        tyv = [v[0] for v in R.resolve("incan_syntax::ast::Type").variants]
+        GEN, SIMPLE = tyv.index("Generic"), tyv.index("Simple")
+        r = {"id": "X-select_hook", "engine": "E2-X mirsmt", "statement": statement,
+             "bound": f"newtypes with 0..={bound} methods (receiver present / absent, 0..={bound} parameters, any return type shape); name tests, type equality and the built-in "
+                      "name lookup are uninterpreted answers; an answer the code never asked for is free (any value that makes the recorded hook wrong is a deviation)",
+             "functions_encoded": [n + " (MIR)" for n in ex.encoded]}
+        prefetch(mp, ex, [o.pc for o in outs])
+        bad, n = [], 0
+        for o in outs:
+            if not feasible(mp, ex, o.pc):
+                continue
+            n += 1
+            if o.kind != "return":
+                bad.append(f"{o.kind}: {o.info}")
+                continue
+            facts, evs = o.state.facts, o.state.events
+            nm = facts.get(f"len:n.{iM}")
+            if nm is None:
+                bad.append("the methods are never examined")
+                continue
+
+            def ans(e):
+                return True if e[2] in o.pc else False if f"(not {e[2]})" in o.pc else None
+            cand, isfu = [], []
+            for k in range(nm):
+                m = f"n.{iM}.e{k}.0"
+                rt = facts.get(f"{m}.{jR}!tag")
+                static = None if not rt or rt[0] != "eq" else (rt[1] == 0)
+                sw = next((ans(e) for e in evs if e[0].endswith("starts_with") and f"sym<{m}.{jN}:" in e[1][0]), None)
+                pl = facts.get(f"len:{m}.{jP}")
+                if pl is not None and pl != 1:
+                    param = False
+                else:
+                    param = next((ans(e) for e in evs if e[0].endswith("eq") and len(e[1]) == 2 and f"sym<{m}.{jP}.e0." in e[1][0] and f"sym<n.{iU}." in e[1][1]), None)
+                rty = f"{m}.{jT}.0"
+                tg = facts.get(f"{rty}!tag")
+                ret = None
+                if tg and ((tg[0] == "eq" and tg[1] != GEN) or (tg[0] == "ne" and GEN in tg[1])):
+                    ret = False
+                else:
+                    cmp_ = next((e for e in evs if (e[0].endswith("::ne") or e[0].endswith("::eq")) and len(e[1]) == 2 and
+                                 any(x[2] in e[1][0] for x in evs if x[0].endswith("from_str") and f"sym<{rty}.Generic.0:" in x[1][0])), None)
+                    is_result = None if cmp_ is None or ans(cmp_) is None else (ans(cmp_) != cmp_[0].endswith("::ne"))
+                    al = facts.get(f"len:{rty}.Generic.1")
+                    a0 = facts.get(f"{rty}.Generic.1.e0.0!tag")
+                    nameeq = next((ans(e) for e in evs if e[0].endswith("eq") and len(e[1]) == 2 and f"sym<{rty}.Generic.1.e0.0.Simple.0:" in e[1][0] + e[1][1] and f"sym<n.{iN}:" in e[1][0] + e[1][1]), None)
+                    if is_result is False or al == 0 or (a0 and ((a0[0] == "eq" and a0[1] != SIMPLE) or (a0[0] == "ne" and SIMPLE in a0[1]))) or nameeq is False:
+                        ret = False
+                    elif is_result and nameeq:
+                        ret = True
+                tests = [static, sw, param, ret]
+                cand.append(False if any(t is False for t in tests) else True if all(t is True for t in tests) else None)
+                isfu.append(next((ans(e) for e in evs if e[0].endswith("eq") and len(e[1]) == 2 and f"sym<{m}.{jN}:" in e[1][0] + e[1][1] and "from_underlying" in (e[1][0] + e[1][1]).lower()), None))
+            val = mirx.show(o.value, ex, o.state)
+            got = None
+            mm = re.search(r"n\.%d\.e(\d+)\.0\.%d" % (iM, jN), val)
+            if val.startswith("Option::Some") or "Some(" in val:
+                src = val
+                if mm is None:      # the name went through a summarised clone: find the event
+                    em = re.search(r"sym<(ev\d+):", val)
+                    ev_ = next((e for e in evs if em and e[2] == em.group(1)), None)
+                    src = ev_[1][0] if ev_ else val
+                    mm = re.search(r"n\.%d\.e(\d+)\.0\.%d" % (iM, jN), src)
+                got = int(mm.group(1)) if mm else -1
+            # every completion of the unasked answers must give the recorded hook
+            free_c = [k for k in range(nm) if cand[k] is None]
+            free_f = [k for k in range(nm) if isfu[k] is None]
+            wrong = None
+            for cv in itertools.product([True, False], repeat=len(free_c)):
+                c = list(cand)
+                for k, v in zip(free_c, cv):
+                    c[k] = v
+                for fv in itertools.product([True, False], repeat=len(free_f)):
+                    fu = list(isfu)
+                    for k, v in zip(free_f, fv):
+                        fu[k] = v
+                    cs = [k for k in range(nm) if c[k]]
+                    first_fu = next((k for k in cs if fu[k]), None)
+                    want = first_fu if first_fu is not None else (cs[0] if len(cs) == 1 else None)
+                    if want != got and not (want is not None and got is not None and want != got and fu[want] and fu[got] and c[got]):
+                        wrong = (want, got, c, fu)
+                        break
+                if wrong:
+                    break
+            if wrong:
+                bad.append(f"{nm} methods, candidates {wrong[2]}, named from_underlying {wrong[3]}: documented hook = method #{wrong[0]}, recorded = "
+                           f"{'none' if got is None else 'method #' + str(got)}")
+        return result_of("X-select_hook", r, bad, n, len(outs), t0, lambda: hook_native(log_dir))
+    return mp.XOb("X-select_hook", statement, "", run)
+
+
+HOOK_PROGRAMS = [
+    # (name, source, function whose body must / must not go through the hook, expected hook call or None)
+    ("from_underlying_only", "type A = newtype int:\n    def from_underlying(n: int) -> Result[A, str]:\n        return Ok(A(n))\n\ndef mk(n: int) -> A:\n    return A(n)\n", "A::from_underlying("),
+    ("single_from_star", "type E = newtype str:\n    def from_str(s: str) -> Result[E, str]:\n        return Ok(E(s))\n\ndef mk(s: str) -> E:\n    return E(s)\n", "E::from_str("),
+    ("from_star_next_to_other_shape", "type E = newtype str:\n    def from_str(s: str) -> Result[E, str]:\n        return Ok(E(s))\n\n    def from_parts(a: str, b: str) -> E:\n        return E(a)\n\ndef mk(s: str) -> E:\n    return E(s)\n", "E::from_str("),
+    ("prefers_from_underlying", "type E = newtype str:\n    def from_str(s: str) -> Result[E, str]:\n        return Ok(E(s))\n\n    def from_underlying(s: str) -> Result[E, str]:\n        return Ok(E(s))\n\ndef mk(s: str) -> E:\n    return E(s)\n", "E::from_underlying("),
+    ("two_candidates_no_hook", "type E = newtype str:\n    def from_a(s: str) -> Result[E, str]:\n        return Ok(E(s))\n\n    def from_b(s: str) -> Result[E, str]:\n        return Ok(E(s))\n\ndef mk(s: str) -> E:\n    return E(s)\n", None),
+    ("instance_method_is_no_hook", "type E = newtype str:\n    def from_x(self, s: str) -> Result[E, str]:\n        return Ok(E(s))\n\ndef mk(s: str) -> E:\n    return E(s)\n", None),
+    ("wrong_param_type_is_no_hook", "type E = newtype str:\n    def from_n(n: int) -> Result[E, str]:\n        return Ok(E(\"x\"))\n\ndef mk(s: str) -> E:\n    return E(s)\n", None),
+]
+
+
+def hook_native(log_dir):
+    import kani
+    os.makedirs(log_dir, exist_ok=True)
+    problems = []
+    for prof in ("dev", "release"):
+        binp = kani.build_replay(prof, True, log_dir)
+        for name, src, want in HOOK_PROGRAMS:
+            path = os.path.join(log_dir, f"hook_{name}.incn")
+            open(path, "w").write(src)
+            rc, out, _, to = common.run([binp, "emitrust", path], timeout=120)
+            flat = re.sub(r"\s+", "", out)
+            m = re.search(r"fnmk\([^)]*\)->\w+\{(.*?)\}", flat)
+            body = m.group(1) if m else ""
+            if "RUST-END" not in out or not m:
+                problems.append(f"[{prof}] {name}: {out.strip()[-120:]}")
+            elif want and want not in body:
+                problems.append(f"[{prof}] {name}: construction does not go through {want}..): {body[:80]}")
+            elif not want and "::from_" in body:
+                problems.append(f"[{prof}] {name}: construction goes through a hook although none qualifies: {body[:80]}")
+    return bool(problems), "; ".join(problems[:4]) or f"{len(HOOK_PROGRAMS)} newtypes: the documented hook (or none) is the one used at the construction site"
